@@ -60,6 +60,18 @@ pub fn gen(seed: u64, thorough: bool, out: &mut impl Write) {
         let slot = if rng.chance(5, 6) { r } else { rng.below(512) };
         emit(out, &[1, compose(idx[0], idx[1], idx[2], idx[3]), frame | (rng.next() & 0xfff), slot, e]);
     }
+    // ---- new() on upper-half table references (recursive indices 256..511, which no user process can
+    // back with memory): only the form check is observable - NotRecursive, or on to the CR3 read
+    for r in 256..512u64 {
+        emit(out, &[5, compose(r, r, r, r)]);
+        if r % 16 == 0 || r >= 509 || thorough {
+            let o = if r == 511 { 510 } else { r + 1 };
+            emit(out, &[5, compose(r, o, r, r)]);
+            emit(out, &[5, compose(r, r, o, r)]);
+            emit(out, &[5, compose(r, r, r, o)]);
+            emit(out, &[5, compose(o, r, r, r)]);
+        }
+    }
     // ---- recursive addresses: every recursive index x pages with edge / random indices
     let edge = [0u64, 1, 255, 256, 510, 511];
     for r in 0..512u64 {
@@ -102,6 +114,14 @@ fn judge(c: &[u64], a: &[i128]) -> (Option<&'static str>, bool) {
             }
             (None, nt)
         }
+        [5, addr] => {
+            let r = idx(*addr, 3);
+            let rec = idx(*addr, 2) == r && idx(*addr, 1) == r && idx(*addr, 0) == r;
+            if a == [-95] { return (Some("the constructor dereferenced the table before validating its address and reading CR3"), true); }
+            if rec && a != [42] { return (Some("a table reference of the recursive form (upper half) must be accepted as recursive: the constructor must go on to compare its slot with CR3"), true); }
+            if !rec && a != [43] { return (Some("a table reference whose address is not of the recursive form must be reported NotRecursive"), true); }
+            (None, true)
+        }
         [f @ 2..=4, page, r] => {
             let (p4, p3, p2) = (idx(*page, 3), idx(*page, 2), idx(*page, 1));
             let digits = match f { 2 => [*r, *r, *r, p4], 3 => [*r, *r, p4, p3], _ => [*r, p4, p3, p2] };
@@ -130,7 +150,7 @@ pub fn oracle() {
         let c = parse_line(&cl);
         let a: Vec<i128> = al.split_ascii_whitespace().map(|t| if let Some(r) = t.strip_prefix('-') { -(i128::from_str_radix(r, 16).unwrap()) } else { i128::from_str_radix(t, 16).unwrap() }).collect();
         evals += 1;
-        let key = match (c.first(), a.first()) { (Some(1), Some(0)) => "new:ok", (Some(1), Some(-30)) => "new:not_recursive", (Some(1), Some(-31)) => "new:not_active", (Some(1), _) => "new:other", (Some(2), _) => "p3_page", (Some(3), _) => "p2_page", _ => "p1_page" };
+        let key = match (c.first(), a.first()) { (Some(1), Some(0)) => "new:ok", (Some(1), Some(-30)) => "new:not_recursive", (Some(1), Some(-31)) => "new:not_active", (Some(1), _) => "new:other", (Some(2), _) => "p3_page", (Some(3), _) => "p2_page", (Some(5), _) => "new:upper_half_form", _ => "p1_page" };
         *mix.entry(key.to_string()).or_default() += 1;
         let (f, nt) = judge(&c, &a);
         if nt { distinct.insert(cl.clone()); }
